@@ -253,6 +253,9 @@ def extras(variant):
     """0: nothing, 1: args and kwds, 2: args only, 3: kwds only"""
     args = (Sentinel('arg0'), Sentinel('arg1')) if variant in (1, 2) else ()
     kwds = {'alpha': Sentinel('alpha'), 'beta': Sentinel('beta')} if variant in (1, 3) else {}
+    if variant == 1:
+        # keyword arguments of f whose names coincide with option names of the wrapper are f's, not the wrapper's
+        kwds.update(bounds=Sentinel('bounds'), method=Sentinel('method'), step=Sentinel('step'))
     return args, kwds
 
 
